@@ -31,10 +31,13 @@ H_CXXFLAGS := -std=c++17 -fno-rtti -fno-exceptions -DNDEBUG -DLLBUILD_VERIF=1 \
   -I$(REPO)/include -I$(REPO)/lib/llvm/Support -I$(REPO)/products/libllbuild/include -I$(REPO)/lib/Commands -I$(V) \
   -Wall -Wno-unused-function -Wno-unused-variable -Wno-deprecated-declarations -g $(OPT)
 
-# the scheduler TU is never instrumented by tsan (DESIGN 2.2)
-NOSAN_OBJS := $(B)/h/sim/detsched.o
-$(NOSAN_OBJS): SAN_H :=
-SAN_H = $(SAN)
+# Under tsan no harness TU is instrumented (DESIGN 2.2): the scheduler's hand-offs and the harness's own
+# cross-thread bookkeeping must stay invisible to the race detector, which then judges repository code only
+# (plus the __tsan_acquire/__tsan_release annotations of the modelled mutexes).
+SANH_asan := $(SAN_asan)
+SANH_plain :=
+SANH_tsan :=
+SAN_H := $(SANH_$(CFG))
 
 WRAPS := $(shell sed -e 's/\#.*//' -e '/^\s*$$/d' $(V)/build/wraps.txt)
 WRAPFLAGS := $(foreach w,$(WRAPS),-Wl,--wrap=$(w))
@@ -43,11 +46,18 @@ LIBS := /usr/lib/x86_64-linux-gnu/libsqlite3.a -lncurses -ldl -lm -pthread -lz
 
 all: $(B)/vsim
 
-$(B)/repo/%.o: $(REPO)/%.cpp
+# rebuild everything when the flags or this makefile change
+FLAGS_SIG := $(REPO_CXXFLAGS) | $(H_CXXFLAGS) | $(SAN_H) | $(WRAPFLAGS)
+$(B)/flags.stamp: FORCE
+	@mkdir -p $(B)
+	@echo '$(FLAGS_SIG)' | cmp -s - $@ || echo '$(FLAGS_SIG)' > $@
+FORCE:
+
+$(B)/repo/%.o: $(REPO)/%.cpp $(B)/flags.stamp
 	@mkdir -p $(dir $@)
 	$(CXX) $(REPO_CXXFLAGS) -MMD -MP -c $< -o $@
 
-$(B)/h/%.o: $(V)/%.cpp
+$(B)/h/%.o: $(V)/%.cpp $(B)/flags.stamp
 	@mkdir -p $(dir $@)
 	$(CXX) $(H_CXXFLAGS) $(SAN_H) -MMD -MP -c $< -o $@
 
@@ -55,4 +65,4 @@ $(B)/vsim: $(REPO_OBJS) $(H_OBJS) $(V)/build/wraps.txt
 	$(CXX) $(SAN) -static-libstdc++ $(WRAPFLAGS) -o $@ $(H_OBJS) $(REPO_OBJS) $(LIBS)
 
 -include $(REPO_OBJS:.o=.d) $(H_OBJS:.o=.d)
-.PHONY: all
+.PHONY: all FORCE
